@@ -114,8 +114,9 @@ def run_task(task):
 def _portfolio_job(job):
     from pyvc.solve import portfolio_text
     t0 = time.time()
-    text, budget = job
-    verdict, backend, model = portfolio_text(text, budget)
+    text, budget = job[0], job[1]
+    verdict, backend, model = portfolio_text(text, budget, job[2] if len(job) > 2 else None,
+                                             job[3] if len(job) > 3 else True)
     return verdict, backend, model, time.time() - t0
 
 
@@ -126,17 +127,27 @@ def _is_violation(r, x):
 
 def run_tasks(tasks, procs=None, retry=True):
     procs = procs or int(os.environ.get("PYVC_PROCS", "16"))
+    _t0 = time.time()
+
+    def _tick(label):
+        if os.environ.get("PYVC_TIMING"):
+            sys.stderr.write("[pyvc timing] %s at %.1fs\n" % (label, time.time() - _t0))
     ctx = mp.get_context("fork")
     if procs <= 1 or len(tasks) <= 1:
         res = [run_task(t) for t in tasks]
     else:
         with ctx.Pool(min(procs, len(tasks))) as pool:
             res = pool.map(run_task, tasks, chunksize=1)
+    _tick("phase 1 done (%d tasks)" % len(tasks))
     # phase 2: deferred (z3-fast unknown) obligations to the solver portfolio
     jobs = []
+    expected_sat = set()     # obligations whose refutation is EXPECTED (canaries, the general
+    #                          clauses inside a recorded finding's region): never a reason to stop
     for r in res:
         for x in r["results"]:
             if x["verdict"] == "unknown" and x["detail"] == "deferred":
+                if r["task"].get("canary") or ".region[" in x["name"]:
+                    expected_sat.add(len(jobs))
                 jobs.append((x, x["model"]["__smt2__"]))
                 x["model"] = None
     if jobs and any(_is_violation(r, x) for r in res for x in r.get("results", [])):
@@ -155,13 +166,34 @@ def run_tasks(tasks, procs=None, retry=True):
         full = PORTFOLIO_S * min(2, _scale())
         per = int(max(30, min(full, wall * n // len(jobs))))
         outs = [None] * len(jobs)
-        with ctx.Pool(n) as pool:
-            it = pool.imap(_portfolio_job, [(j[1], per) for j in jobs], chunksize=1)
-            for i in range(len(jobs)):
-                outs[i] = it.next()
-                if outs[i][0] == "sat" and outs[i][2] is not None:
-                    pool.terminate()       # a refutation: the rest cannot change the verdict
-                    break
+        todo = list(range(len(jobs)))
+        if len(jobs) > 2 * n:
+            # phase 2a: cvc5 alone decides most of what z3's 4 s leave open (proofs only: a
+            # cvc5 `sat` carries no model here and is left to phase 2b); one process per
+            # job, so all cores work on different obligations
+            first = [i for i in range(len(jobs)) if i not in expected_sat]
+            with ctx.Pool(max(1, min(procs, len(first)))) as pool:
+                pre = pool.map(_portfolio_job,
+                               [(jobs[i][1], min(per, 25), ("cvc5",)) for i in first],
+                               chunksize=1)
+            done = set()
+            for i, o in zip(first, pre):
+                if o[0] == "unsat":
+                    outs[i] = o
+                    done.add(i)
+            todo = [i for i in range(len(jobs)) if i not in done]
+        if todo:
+            with ctx.Pool(min(n, len(todo))) as pool:
+                # an EXPECTED refutation (canary, general clause inside a recorded finding's
+                # region) is matched by name: cvc5's `sat` is enough, no model needed
+                it = pool.imap(_portfolio_job, [(jobs[i][1], per, None, i not in expected_sat)
+                                                for i in todo], chunksize=1)
+                for i in todo:
+                    outs[i] = it.next()
+                    if outs[i][0] == "sat" and outs[i][2] is not None and \
+                            i not in expected_sat:
+                        pool.terminate()   # a refutation: the rest cannot change the verdict
+                        break
         outs = [o if o is not None else (None, None, None, 0.0) for o in outs]
         for (x, _), (verdict, backend, model, dt) in zip(jobs, outs):
             x["time"] += dt
@@ -171,11 +203,15 @@ def run_tasks(tasks, procs=None, retry=True):
             elif verdict == "sat" and model is not None:
                 x["verdict"], x["backend"], x["model"] = "refuted", backend, model
             elif verdict == "sat":
-                x["detail"] = "%s says sat but gave no model" % backend
+                # a definite answer of a trusted back end; without a model the violation is
+                # reported with `no-failing-input-found`
+                x["verdict"], x["backend"], x["model"] = "refuted", backend, {}
+                x["detail"] = "%s says sat; no model was produced within the budget" % backend
             elif verdict is None and backend is None and dt == 0.0:
                 x["detail"] = "not pursued: another obligation of this run was refuted first"
             else:
                 x["detail"] = "all back ends: unknown/timeout"
+    _tick("phase 2 done (%d jobs)" % len(jobs))
     # phase 3: one retry of tasks that still have an undecided obligation (solver
     # verdicts can flip under load); a fresh process, fewer workers, larger budget
     # (pointless when something is already refuted: the check reports that violation)
